@@ -132,7 +132,11 @@ impl Stats {
                 bump(&mut self.faults, "F7b_source_not_fused", 1);
             }
             if cfg.lying_hint() {
-                bump(&mut self.faults, "F7c_exact_hint_under_reports", 1);
+                if cfg.hint_short > 0 {
+                    bump(&mut self.faults, "F7c_exact_hint_under_reports", 1);
+                } else {
+                    bump(&mut self.faults, "F7d_exact_hint_over_reports", 1);
+                }
             }
         }
         bump(&mut self.faults, "F8_stale_load", s.stale_loads);
